@@ -119,6 +119,9 @@ package parse
 //@   ensures implies(result != nil, measure(result, l) < old(measure(fn, l)))
 //@   ensures nsent(l.items) >= old(nsent(l.items))
 
+// A comment is trivia (C10): it extends from its opener to the FIRST terminator found after the opener
+// (so the body of a block comment may start with '/'), and nothing of it reaches the parser.
+//@ define cmtEnd(l, t) = smt("Int", "(str.indexof (str.substr %s %s (- (str.len %s) %s)) %s 0)", l.input, l.pos + 2, l.input, l.pos + 2, t)
 //@ func lexComment
 //@   implements type:stateFn
 //@   requires LI(l) && l.start == l.pos && l.pos + 2 <= len(l.input) && hasprefix(l.input[l.pos:], "/*")
@@ -126,6 +129,8 @@ package parse
 //@   modifies l.start
 //@   modifies sent(l.items)
 //@   nopanic
+//@   ensures implies(old(cmtEnd(l, "*/")) >= 0, l.pos == old(l.pos) + 2 + old(cmtEnd(l, "*/")) + 2 && l.start == l.pos && result == funcval(lexStmt) && nsent(l.items) == old(nsent(l.items)))
+//@   ensures implies(old(cmtEnd(l, "*/")) < 0, sentTerminal(l) && result == nil)
 
 //@ func lexCommentLine
 //@   implements type:stateFn
@@ -134,6 +139,9 @@ package parse
 //@   modifies l.start
 //@   modifies sent(l.items)
 //@   nopanic
+
+//@   ensures implies(old(cmtEnd(l, "\n")) >= 0, l.pos == old(l.pos) + 2 + old(cmtEnd(l, "\n")) + 1 && l.start == l.pos && result == funcval(lexStmt) && nsent(l.items) == old(nsent(l.items)))
+//@   ensures implies(old(cmtEnd(l, "\n")) < 0, sentTerminal(l) && result == nil)
 
 //@ func lexSep
 //@   implements type:stateFn
